@@ -137,11 +137,8 @@ func init() {
 		"sync/atomic.StorePointer":          ext۰NoEffect, // ignore unsafe.Pointers
 		"sync/atomic.StoreUint32":           ext۰NoEffect,
 		"sync/atomic.StoreUintptr":          ext۰NoEffect,
-		"syscall.Close":                     ext۰NoEffect,
 		"syscall.Exit":                      ext۰NoEffect,
 		"syscall.Getpid":                    ext۰NoEffect,
-		"syscall.Getwd":                     ext۰NoEffect,
-		"syscall.Kill":                      ext۰NoEffect,
 		"syscall.RawSyscall":                ext۰NoEffect,
 		"syscall.RawSyscall6":               ext۰NoEffect,
 		"syscall.Syscall":                   ext۰NoEffect,
